@@ -503,3 +503,66 @@ def bounding_shapes(slice_i=0, n_slices=1):
                             if i % n_slices == slice_i:
                                 yield root
                             i += 1
+
+
+@st.composite
+def wide_spec(draw, allow_const=False):
+    """long option lists: one threshold node with 8-14 direct children (mostly boolean leaves, 1-2 integer leaves, possibly
+    1-2 small compound children), threshold anywhere between 0 and beyond the number of children, either sign; alone or
+    under one connective"""
+    nb = draw(st.integers(7, 12))
+    kids = [{"k": "leaf", "id": "o%02d" % i, "b": [0, 1]} for i in range(nb)]
+    for j in range(draw(st.integers(0, 2))):
+        b = draw(st.sampled_from([[0, 5], [-2, 3], [0, 2], [-3, 0], [1, 4]]))
+        if allow_const and draw(st.integers(0, 5)) == 0:
+            b = [b[0], b[0]]
+        # integer children early, in the middle or late in id order
+        kids.append({"k": "leaf", "id": draw(st.sampled_from(["bonus%d", "a_qty%d", "o05x%d", "zz%d"])) % j, "b": b})
+    for j in range(draw(st.integers(0, 2))):
+        sub = draw(st.lists(st.sampled_from(kids[:nb]), min_size=1, max_size=3, unique_by=lambda l: l["id"]))
+        kids.append({"k": draw(st.sampled_from(["Any", "All", "AtMost"])), "id": draw(st.sampled_from([None, "G%d" % j, "o03g%d" % j])), "c": sub, "v": 1})
+    for k_ in kids:
+        if k_["k"] != "AtMost":
+            k_.pop("v", None)
+    n = len(kids)
+    kind = draw(st.sampled_from(["AtLeast", "AtLeast", "AtMost", "All", "Any"]))
+    node = {"k": kind, "id": draw(st.sampled_from(["score", None])), "c": kids}
+    if kind == "AtLeast":
+        node["v"] = draw(st.one_of(st.integers(0, n + 5), st.sampled_from([n, n - 1, n + 1, 1, 2])))
+        node["s"] = draw(st.sampled_from([1, None, -1]))
+        if node["s"] == -1:
+            node["v"] = -draw(st.integers(0, n))
+    elif kind == "AtMost":
+        node["v"] = draw(st.integers(0, n + 2))
+    outer = draw(st.sampled_from(["none", "none", "Not", "Imply", "All"]))
+    z = {"k": "leaf", "id": "z", "b": [0, 1]}
+    if outer == "Not":
+        return {"k": "Not", "c": [node]}
+    if outer == "Imply":
+        return {"k": "Imply", "id": None, "c": [node, z]}
+    if outer == "All":
+        return {"k": "All", "id": "W", "c": [node, z]}
+    return node
+
+
+@st.composite
+def wide_case(draw, allow_const=False, n_points=(24, 40)):
+    """{"model": wide spec, "points": drawn leaf assignments} - the boxes are far too large to enumerate"""
+    from vf import oracle
+    spec = draw(wide_spec(allow_const=allow_const))
+    lv = oracle.spec_leaves(spec)
+    ids = sorted(lv)
+    n = draw(st.integers(*n_points))
+    # mostly-ones / mostly-zeros / mixed rows so that sums land near every threshold
+    pts = []
+    for _ in range(n):
+        dens = draw(st.sampled_from([0, 1, 1, 2, 3]))
+        row = []
+        for i in ids:
+            lo, hi = lv[i]
+            if (lo, hi) == (0, 1):
+                row.append(draw(st.sampled_from([[0], [0, 0, 1], [0, 1], [1, 1, 0], [1]][dens + (1 if dens < 4 else 0) - 1 if dens else 0])))
+            else:
+                row.append(draw(st.sampled_from([lo, hi, hi, 0 if lo <= 0 <= hi else lo, draw(st.integers(lo, hi))])))
+        pts.append(row)
+    return {"model": spec, "points": pts}
